@@ -170,7 +170,7 @@ func fullCatalogue(thorough bool) []*dtype {
 			out = append(out, mkHMAC(c.hash, c.size, c.tag, v))
 		}
 	}
-	out = append(out, mkHKDFPRF("SHA256", 32, nil), mkHKDFPRF("SHA512", 64, ref.KeyBytes("c17-derived-prf-salt", 16)), mkHKDFPRF("SHA256", 33, []byte{7}))
+	out = append(out, mkHKDFPRF("SHA256", 32, nil), mkHKDFPRF("SHA512", 64, ref.KeyBytes("c17-derived-prf-salt", 16)), mkHKDFPRF("SHA256", 33, []byte{7}), mkHKDFPRF("SHA256", 32, make([]byte, 65)))
 	out = append(out, mkHMACPRF("SHA256", 16), mkHMACPRF("SHA256", 32), mkHMACPRF("SHA512", 64))
 	if thorough {
 		out = append(out, mkHKDFPRF("SHA1", 32, nil), mkHKDFPRF("SHA384", 48, nil), mkHKDFPRF("SHA256", 16, nil), mkHKDFPRF("SHA512", 100, nil))
@@ -215,19 +215,34 @@ type prfCfg struct {
 	salt []byte
 }
 
-func (p prfCfg) String() string { return fmt.Sprintf("HKDF-%s/key%d/salt%d", p.hash, p.size, len(p.salt)) }
+func (p prfCfg) String() string {
+	return fmt.Sprintf("HKDF-%s/key%d/salt%d", p.hash, p.size, len(p.salt))
+}
 
 var prfCfgs = func() []prfCfg {
 	var out []prfCfg
 	for _, size := range []int{32, 64} {
 		for _, hash := range []string{"SHA256", "SHA512"} {
-			for _, salt := range [][]byte{nil, {0x5a}, ref.KeyBytes("c17-prf-salt", 32)} {
+			for _, salt := range [][]byte{nil, {0x5a}, ref.KeyBytes("c17-prf-salt", 32), make([]byte, 64), make([]byte, 129)} { // the all-zero salts: = default up to the HMAC block, not beyond
 				out = append(out, prfCfg{size, hash, salt})
 			}
 		}
 	}
 	return out
 }()
+
+// sameHMACKey: two salts no longer than the hash's block size that differ only in trailing zero bytes are the
+// same HMAC key (RFC 2104 pads with zeros), hence the same HKDF salt; the empty salt is hLen zeros (RFC 5869).
+func sameHMACKey(hash string, a, b []byte) bool {
+	block := 64
+	if hash == "SHA384" || hash == "SHA512" {
+		block = 128
+	}
+	if len(a) > block || len(b) > block {
+		return false
+	}
+	return bytes.Equal(bytes.TrimRight(a, "\x00"), bytes.TrimRight(b, "\x00"))
+}
 
 func prfHash(hash string) hkdfprf.HashType {
 	if hash == "SHA512" {
@@ -958,8 +973,8 @@ func singleSection(x *h.X) {
 		}
 	}
 	for _, s2 := range [][]byte{nil, {0x5a}, {0x5b}, ref.KeyBytes("c17-prf-salt", 32), ref.KeyBytes("c17-prf-salt", 31)} {
-		if bytes.Equal(s2, cfg.salt) {
-			continue
+		if bytes.Equal(s2, cfg.salt) || sameHMACKey(cfg.hash, s2, cfg.salt) {
+			continue // the same salt, or two salts that are one HMAC key by RFC 2104 zero padding (nil and 64 zero bytes)
 		}
 		cfg2 := prfCfg{cfg.size, cfg.hash, s2}
 		es2 := []dentry{{dt: dt, cfg: cfg2, prfKey: kb, id: id, status: tinkpb.KeyStatusType_ENABLED, primary: true}}
